@@ -29,6 +29,8 @@ CFG = gen.Config(kinds=['text', 'var', 'call', 'try', 'try', 'try', 'raise',
                         'let', 'unless', 'sub'],
                  max_depth=3, max_items=3, literals=False, eol=False)
 NS = gen.base_ns()
+NS_TWINS = dict(NS, **{n: dict(t='exc', n='twin:' + n)
+                        for n in ('VfA', 'VfB', 'VfC', 'VfX', 'VfM')})
 NS_DEGRADED = {k: v for k, v in NS.items()
                if k not in ('VfA', 'VfB', 'VfC', 'VfX', 'VfM', 'fa', 'vn',
                             'ct', 's2')}
@@ -60,6 +62,9 @@ def run(case):
     # dtml-raise expressions, handlers and bodies took other paths)
     tmpl = harness.make_template(src, sx)
     harness.run_impl(src, sx, NS_DEGRADED, template=tmpl)
+    # ... and in one where the class names are bound to other classes of
+    # the same names but another ancestry
+    harness.run_impl(src, sx, NS_TWINS, template=tmpl)
     out_i, w_i, ns_i = harness.run_impl(src, sx, NS, template=tmpl)
     no_m, no_i = harness.norm_outcome(out_m), harness.norm_outcome(out_i)
     if no_m != no_i:
